@@ -20,7 +20,9 @@ TRUSTED_BASE = [
     "Print Assumptions: every C13 theorem is closed under the global context (no axioms)",
     "translator tr/translate_c13.py (Python ast -> gen/C13_Gen.v; fail-closed; its output is run against the implementation each run)",
     "fixed Coq text for the Python builtins np.abs, max, min, max(list), np.dot, chained `<`, emitted by the translator",
-    "hand model coq/C13/Model.v of derivative(), _interpolated_species, _max_atom_distance_between_images, partition, tied by the correspondence streams",
+    "hand model coq/C13/Model.v of derivative(), _interpolated_species, _max_atom_distance_between_images, partition: tied by the "
+    "correspondence streams AND by a structural pin in tr/translate_c13.py (source minus docstrings/logger calls must equal the text "
+    "the model was written from; any extra loop exit, changed condition or bound fails closed with exit status 3)",
     "np.linalg.norm (square root) is an oracle: theorems take its value at the tangent with the premise nrm*nrm = tau.tau, nrm != 0; "
     "the correspondence accepts the implementation's norm values only after checking c*c = v.v to 1e-12 in exact arithmetic",
     "NEB.from_end_points inside partition (interpolation + IDPP relaxation by scipy L-BFGS-B) is an oracle: partition_bound assumes "
@@ -44,7 +46,7 @@ RULE = ("bands of 2..20 images (quick: 2..8) x 1..3 atoms, coordinates k/8, grad
 
 SLICE = ["lib/Sums.v", "lib/QcInst.v", "C13/Base.v", "C13/Model.v", "C13/Lemmas.v", "C13/Props.v",
          "C13/Corr.v", "gen/C13_Gen.v"]
-PRE = ("From Coq Require Import ZArith QArith Qcanon List Bool.\nFrom AV.lib Require Import Sums QcInst.\n"
+PRE = ("From Coq Require Import ZArith NArith QArith Qcanon List Bool.\nFrom AV.lib Require Import Sums QcInst.\n"
        "From AV.C13 Require Import Base Model Corr.\nFrom AV.gen Require Import C13_Gen.\nImport ListNotations.\n")
 
 BUILD_ORDER = ["C13/Base.v", "gen/C13_Gen.v", "C13/Model.v", "C13/Lemmas.v", "C13/Props.v", "C13/Corr.v"]
@@ -610,11 +612,24 @@ class Ids:
         return self.ids[k]
 
 
+def coq_n(k):
+    return f"{int(k)}%N"
+
+
+def dtable_term(pairs, coords_of):
+    """two-level distance table for the image-id pairs `pairs`"""
+    rows = {}
+    for (a, b) in sorted(pairs):
+        dd = np.linalg.norm(coords_of(a).reshape(-1, 3) - coords_of(b).reshape(-1, 3), axis=1)
+        rows.setdefault(a, []).append(f"({coq_n(b)}, {qc_list(dd.tolist())})")
+    return coq_list([f"({coq_n(a)}, {coq_list(r)})" for a, r in sorted(rows.items())])
+
+
 def partition_term(d, res):
     tag, final, calls = res
     ids = Ids()
     band = [ids(x) for x in d["coords"]]
-    btab, seen, inconsistent = [], {}, False
+    brows, seen, inconsistent = {}, {}, False
     pairs = set()
     for (l, r, num, resc) in calls:
         key = (ids(l), ids(r), num)
@@ -623,21 +638,20 @@ def partition_term(d, res):
             inconsistent |= seen[key] != val
             continue
         seen[key] = val
-        btab.append(f"({key[0]}%nat, {key[1]}%nat, {key[2]}%nat, " + ("None" if val is None else f"Some {coq_list([coq_nat(v) for v in val])}") + ")")
+        brows.setdefault(key[0], []).append(
+            f"({coq_n(key[1])}, {coq_nat(key[2])}, " + ("None" if val is None else f"Some {coq_list([coq_n(v) for v in val])}") + ")")
         if val:
             pairs |= set(zip(val, val[1:]))
     fin = [ids(x) for x in final]
     pairs |= set(zip(fin, fin[1:]))
-    dtab = []
-    for (a, b) in sorted(pairs):
-        dd = np.linalg.norm(ids.coords[a].reshape(-1, 3) - ids.coords[b].reshape(-1, 3), axis=1)
-        dtab.append(f"({a}%nat, {b}%nat, {qc_list(dd.tolist())})")
+    dtab = dtable_term(pairs, lambda a: ids.coords[a])
+    btab = coq_list([f"({coq_n(l)}, {coq_list(r)})" for l, r in sorted(brows.items())])
     natoms = len(d["labels"])
     sel = list(range(natoms)) if d["idxs"] is None else d["idxs"]
-    exp = {"ok": f"(POk {coq_list([coq_nat(v) for v in fin])})", "assertion": "PAssertion", "runtime": "PRuntimeError",
+    exp = {"ok": f"(POk {coq_list([coq_n(v) for v in fin])})", "assertion": "PAssertion", "runtime": "PRuntimeError",
            "value": "PValueError"}[tag]
-    term = (f"check_partition {coq_list(dtab)} {coq_list(btab)} {coq_list([coq_nat(j) for j in sel])} {qc(d['max_delta'])} "
-            f"{coq_list([coq_nat(v) for v in band])} {exp}")
+    term = (f"check_partition {dtab} {btab} {coq_list([coq_nat(j) for j in sel])} {qc(d['max_delta'])} "
+            f"{coq_list([coq_n(v) for v in band])} {exp}")
     return term, inconsistent
 
 
@@ -712,6 +726,17 @@ def all_cases(ctx):
                     parts.append({"mol": name, "labels": labels, "coords": [list(map(float, c)) for c in coords],
                                   "max_delta": md, "idxs": idxs})
     parts.append({"mol": "H2", "labels": ["H", "H"], "coords": [list(map(float, MOLS["H2"][1]))], "max_delta": 0.2, "idxs": None})
+    # FINE partitions: (separation of the selected atom between adjacent images) / max_delta = 40..58, i.e. 40-60 images
+    # have to be inserted between two original images (one selected atom on H2/H3 keeps from_end_points cheap)
+    fine = [("H3", ["H", "H", "H"], [[0, 0, 0, 0.9, 0, 0, 3.2, 0, 0], [0, 0, 0, 1.4, 0, 0, 3.2, 0, 0]], 0.0125, [1]),   # ratio 40
+            ("H2", ["H", "H"], [[0, 0, 0, 0.8, 0, 0], [0, 0, 0, 1.3, 0, 0]], 0.01, [1])]                                 # ratio 50
+    if full:
+        fine += [("H2", ["H", "H"], [[0, 0, 0, 0.8, 0, 0], [0, 0, 0, 1.25, 0.2, 0]], 0.0085, [1]),                        # ratio ~58
+                 ("H3", ["H", "H", "H"], [[0, 0, 0, 0.9, 0, 0, 3.2, 0, 0], [0, 0, 0, 1.15, 0, 0, 3.2, 0, 0],
+                                            [0, 0, 0, 1.6, 0.1, 0, 3.2, 0, 0]], 0.0125, [1])]                             # ratios 20, ~37
+    for name, labels, coords, md, idxs in fine:
+        parts.append({"mol": name + "-fine", "labels": labels, "coords": [list(map(float, c)) for c in coords],
+                      "max_delta": md, "idxs": idxs})
     return {"band": bands, "triple": triples, "interp": interps, "from_end_points": feps, "maxdist": maxd, "partition": parts}
 
 
@@ -724,11 +749,15 @@ def run(ctx):
     rc, out = sh(["python3", f"{VERIF}/tr/translate_c13.py"], timeout=120)
     ctx.log("translator:", out.strip()[:300])
     translated = rc == 0
-    ctx.cov["translator"] = {"ok": translated, "output": out.strip()[:600]}
+    # rc 3 with "pinned shape": the translated functions were written, but a HAND-modelled function no
+    # longer has the source the model was written from -> proofs / correspondence still run against the
+    # (now unjustified) hand model for diagnosis, and the run cannot pass
+    pinned_changed = rc == 3 and "pinned shape" in out
+    ctx.cov["translator"] = {"ok": translated, "pinned_shape_changed": pinned_changed, "output": out.strip()[:900]}
     # 2. proofs over the regenerated model
     info = {"hygiene": [], "log_tail": out, "build_ok": False}
     proofs_ok = corr_built = False
-    if translated:
+    if translated or pinned_changed:
         proofs_ok, info = proofs_step(ctx)
         ctx.log("proofs:", "ok" if proofs_ok else "BROKEN")
         ctx.cov["print_assumptions"] = info.get("assumptions", {})
@@ -804,12 +833,9 @@ def run(ctx):
         key = (m, tuple(sel), tuple(d["coords"][0]))
         ctx.count("impl-oracle-max-distance", key, nontrivial=m >= 3)
         ctx.hist("impl-oracle-max-distance", f"images={m}")
-        tab = []
-        for k in range(m - 1):
-            dd = np.linalg.norm(np.array(d["coords"][k]).reshape(-1, 3) - np.array(d["coords"][k + 1]).reshape(-1, 3), axis=1)
-            tab.append(f"({k}%nat, {k + 1}%nat, {qc_list(dd.tolist())})")
+        tab = dtable_term([(k, k + 1) for k in range(m - 1)], lambda a: np.array(d["coords"][a], dtype=float))
         exp = "MDErr" if got == "err" else ("MDNegInf" if got == -math.inf else f"(MDVal {qc(got)})")
-        add(f"check_maxdist {coq_list(tab)} {coq_list([coq_nat(j) for j in sel])} {coq_list([coq_nat(k) for k in range(m)])} {exp}",
+        add(f"check_maxdist {tab} {coq_list([coq_nat(j) for j in sel])} {coq_list([coq_n(k) for k in range(m)])} {exp}",
             {"what": "max_atom_distance", "case": d}, "model-vs-impl-max-distance", key, nontrivial=m >= 3)
     inconsistent = 0
     for d in cases["partition"]:
@@ -821,6 +847,10 @@ def run(ctx):
         nontriv = pinfo["n_final"] > len(d["coords"])
         ctx.count("impl-oracle-partition", key, nontrivial=nontriv)
         ctx.hist("impl-oracle-partition", f"images {len(d['coords'])}->{pinfo['n_final']}")
+        sel_ = list(range(len(d["labels"]))) if d["idxs"] is None else d["idxs"]
+        if sel_ and len(d["coords"]) > 1:
+            ratio = brute_max_distance(d["coords"], sel_) / d["max_delta"]
+            ctx.hist("impl-oracle-partition", "separation/max_delta " + ("<2" if ratio < 2 else "2-8" if ratio < 8 else "8-32" if ratio < 32 else ">=32"))
         term, inc = partition_term(d, res)
         if inc:
             inconsistent += 1       # from_end_points gave two answers for the same arguments: not a function
@@ -843,10 +873,10 @@ def run(ctx):
     # 5. decide
     if not translated:
         if nfail == 0:
-            ctx.violation("translator failed closed: the anchored NEB code left the translatable vocabulary, the property is not "
-                          "shown for it: " + out.strip()[:300], {"kind": "untranslatable", "translator_output": out.strip()[:2000]},
-                          found_input=False)
-    elif not proofs_ok:
+            ctx.violation("translator failed closed: the anchored NEB code left the translatable vocabulary / the pinned shape of a "
+                          "hand-modelled function, the property is not shown for it: " + out.strip()[:400],
+                          {"kind": "untranslatable", "translator_output": out.strip()[:2000]}, found_input=False)
+    if (translated or pinned_changed) and not proofs_ok:
         ctx.proof_failure(info, found_any_input=(nfail > 0))
     if corr_bad or corr_err:
         if nfail == 0:
@@ -885,7 +915,8 @@ MANIFEST = {
                    "exactly n evenly spaced images x_0 + i/(n-1)(x_{n-1}-x_0) and keeps atom order; the maximum image distance "
                    "is the maximum over ALL consecutive pairs; partition's result respects max_delta on every consecutive pair "
                    "and selected atom and keeps the end points.  The tangent/force/adaptive-k definitions are regenerated from "
-                   "/repo on every run; derivative/interpolation/max-distance/partition are a hand model tied by correspondence."),
+                   "/repo on every run; derivative/interpolation/max-distance/partition are a hand model tied by correspondence and by a "
+                   "structural pin of their source (fail closed)."),
     "level_note": ("Trusted: Coq kernel; tr/translate_c13.py and its fixed text for Python builtins (validated each run by the "
                    "correspondence); the hand model of derivative, _interpolated_species, _max_atom_distance_between_images and "
                    "partition (validated each run); sqrt/np.linalg.norm enters as an oracle value with the premise nrm^2 = tau.tau "
